@@ -742,6 +742,41 @@ loop:
 					continue
 				}
 
+				// Only HEADERS opens a stream. Anything else about a stream that is
+				// not in the table is dealt with here, without creating one: an
+				// entry made for a PRIORITY frame was never counted against the
+				// limit, and a later HEADERS on that id made a second entry
+				// beside it.
+				if fr.Type() != FrameHeaders {
+					if fr.Type() == FramePriority {
+						// PRIORITY may name a stream in any state, idle or long
+						// closed, and changes nothing here.
+						if pf, ok := fr.Body().(*Priority); ok && pf.Stream() == fr.Stream() {
+							sc.writeGoAway(fr.Stream(), ProtocolError, "stream that depends on itself")
+							break loop
+						}
+
+						continue
+					}
+
+					if fr.Stream() > sc.lastID {
+						sc.writeGoAway(fr.Stream(), ProtocolError, "wrong frame on idle stream")
+						break loop
+					}
+
+					// Closed long enough ago to have left closedStrms. A
+					// WINDOW_UPDATE can still trail in; anything else cannot.
+					if fr.Type() != FrameWindowUpdate {
+						sc.writeGoAway(fr.Stream(), StreamClosedError, "frame on closed stream")
+
+						if canCloseAfterGoAway() {
+							break loop
+						}
+					}
+
+					continue
+				}
+
 				// if the client has more open streams than the maximum allowed OR
 				//   the connection is closing, then refuse the stream
 				if openStreams >= int(sc.st.maxStreams) || wasClosing {
